@@ -2,6 +2,7 @@
   C15 — the pythonic wrapper returns only built-in Python types, equal to the element-wise
   pythonisation of the raw result.  Model: `Snmp.Model.Pyth`.
 -/
+import Snmp.Gen.Facts
 import Snmp.Model.Pyth
 namespace Snmp.Props.C15
 open Snmp.Pyth
@@ -152,5 +153,12 @@ example : builtin (.dict [(.leak "ObjectIdentifier", .int 1)]) = false := by dec
 example : multiget [.ticks 4242, .ip [192, 0, 2, 1], .oid [1, 3, 6]] =
     .list [.timedelta 42420000, .ipv4 3221225985, .str "1.3.6"] := by
   simp [multiget, pythonize, fromBE, dotted]; decide
+
+
+/-- every `PyWrapper` method that delegates to the raw client's method of the same name hands every
+    one of its parameters on — directly or through a local computed from it (shape of the code,
+    generated; seeded C15-53 dropped `errors` on the way): the wrapper results are functions of the raw
+    results of the SAME call -/
+theorem C15_delegation_shape : Snmp.Gen.pyWrapperPassesArgs = true := by decide
 
 end Snmp.Props.C15
